@@ -504,7 +504,7 @@ def rule_gst(S):
 
 def run(S):
     S.undecided = ['that the epoch really advances and memory is really reclaimed in later cycles (timing)',
-                   'behaviour with sessions left open across fin()',
+                   'behaviour with sessions left open across fin(), beyond their queues being drained (R-DRAIN)',
                    'that no other process-wide state (e.g. destroy_manager counters) leaks between cycles']
     S.assumptions = ['a std::thread started from init() runs the function passed to its constructor',
                      'callees of the thread functions terminate (only the thread functions\' own loops are examined)']
@@ -514,3 +514,6 @@ def run(S):
     rule_emp(S)
     rule_fin(S)
     rule_gst(S)
+    # a cycle ends clean only if fin() really drains every session's retire queues, also of sessions left open (shared with C11)
+    from checks.C11 import rule_drain
+    rule_drain(S)
